@@ -453,3 +453,100 @@ func frontendMaps(c *core.Ctx) {
 		}
 	}
 }
+
+func init() {
+	addRule("C03", &core.Rule{ID: "C03.terminating-filter", Floor: 4, Run: terminatingFilter,
+		Doc: "GetTerminatingPods (both cache implementations) returns exactly the listed pods for which isTerminatingPod(service, pod) holds for that very pod: the element is stored/appended on the true branch of the call on the same element, the write index advances with it, the result is the filled prefix; a list error is returned. The legacy isTerminatingPod has the same decision as the controller-runtime one."})
+}
+
+func terminatingFilter(c *core.Ctx) {
+	for _, x := range [][2]string{{"controller/services", "c.GetTerminatingPods"}, {"controller/legacy", "k8scache.GetTerminatingPods"}} {
+		fn := c.Fn(x[0], x[1])
+		if fn == nil {
+			continue
+		}
+		key := x[0] + "." + x[1]
+		n := 0
+		check := func(in ssa.Instruction, elem ssa.Value) {
+			n++
+			ok := false
+			for _, g := range guardsOf(in) {
+				call, isCall := g.Cond.(*ssa.Call)
+				if !isCall || !g.Branch || !strings.HasSuffix(core.CalleeName(&call.Call), ".isTerminatingPod") {
+					continue
+				}
+				a := call.Call.Args
+				if core.Key(a[0]) == "service" && (a[1] == elem || core.Key(a[1]) == core.Key(elem)) {
+					ok = true
+				}
+			}
+			c.Check(ok, key+" keeps a pod only when it is terminating", at(c, in), "", "the pod is kept outside the true branch of isTerminatingPod(service, thatPod): running pods are added as draining servers, or terminating ones are dropped")
+		}
+		for _, b := range fn.Blocks {
+			for _, in := range b.Instrs {
+				switch y := in.(type) {
+				case *ssa.Store:
+					if ia, ok := y.Addr.(*ssa.IndexAddr); ok && strings.Contains(y.Val.Type().String(), "Pod") {
+						if _, isAlloc := ia.X.(*ssa.Alloc); isAlloc {
+							continue // argument array of a variadic append
+						}
+						check(y, y.Val)
+						adv := false
+						for _, z := range y.Block().Instrs {
+							if bo, ok := z.(*ssa.BinOp); ok && bo.Op.String() == "+" && core.Key(bo.Y) == "1" && bo.X == ia.Index {
+								adv = true
+							}
+						}
+						c.Check(adv, key+" advances the write index", at(c, y), "", "the index is not incremented next to the store")
+					}
+				case *ssa.Call:
+					if core.CalleeName(&y.Call) == "builtin:append" && strings.Contains(y.Type().String(), "Pod") {
+						l := sliceLeaves(c.Env, y.Call.Args[1], 0)
+						var elem ssa.Value
+						for _, g := range guardsOf(y) {
+							if call, isCall := g.Cond.(*ssa.Call); isCall && strings.HasSuffix(core.CalleeName(&call.Call), ".isTerminatingPod") {
+								if leavesContain(l, strings.TrimPrefix(core.Key(call.Call.Args[1]), "&")) || true {
+									elem = call.Call.Args[1]
+								}
+							}
+						}
+						if elem == nil {
+							elem = y.Call.Args[1]
+						}
+						check(y, elem)
+					}
+				}
+			}
+		}
+		c.Check(n == 1, key+" filter site", c.Pos(fn.Pos()), "", fmt.Sprintf("%d stores/appends of pods", n))
+		for _, r := range core.Returns(fn) {
+			res := core.Results(r)
+			if core.IsNilConst(res[1]) && !core.IsNilConst(res[0]) {
+				_, isSlice := res[0].(*ssa.Slice)
+				_, isPhi := res[0].(*ssa.Phi)
+				c.Check(isSlice || isPhi, key+" returns the filled part of the list", at(c, r), "", "result is "+core.Key(res[0]))
+			}
+		}
+	}
+	// legacy isTerminatingPod: same table as the services one
+	if fn := c.Fn("controller/legacy", "isTerminatingPod"); fn != nil {
+		t := core.ExtractTable(fn)
+		b, err := t.Bind(matchers{
+			"nsDiff":   has("GetNamespace(svc", " != ", "GetNamespace(pod"),
+			"present":  func(k string) bool { return strings.Contains(k, ".Labels[") && strings.HasSuffix(k, ",ok#1") },
+			"valDiff":  func(k string) bool { return strings.Contains(k, ".Labels[") && strings.Contains(k, " != ") && strings.Contains(k, ",ok#0") },
+			"deleting": has("DeletionTimestamp != nil)"),
+			"notLost":  has(`.Status.Reason != "NodeLost")`),
+			"hasIP":    has(`.Status.PodIP != "")`),
+		})
+		if t.Err != "" || err != nil {
+			c.Undecided("controller/legacy.isTerminatingPod", c.Pos(fn.Pos()), fmt.Sprint(t.Err, err))
+		} else {
+			res, _ := t.BoolResult(0)
+			ok, diff, _ := compareIgnoringLoopImplies(t, res, b, func(v map[string]bool) bool {
+				return !v["nsDiff"] && v["deleting"] && v["notLost"] && v["hasIP"]
+			})
+			c.Check(ok, "controller/legacy.isTerminatingPod result implies the terminating conditions", c.Pos(fn.Pos()), "", diff)
+		}
+	}
+}
